@@ -39,7 +39,7 @@ class HardError(Exception):
 # ---------------------------------------------------------------- values
 
 class VConst:
-    __slots__ = ("value", "dom", "pos", "force_signed")
+    __slots__ = ("value", "dom", "pos", "force_signed", "via_clone")
     t = "c"
 
     def __init__(self, value, dom="dec", pos=0, force_signed=False):
@@ -47,6 +47,7 @@ class VConst:
         self.dom = dom
         self.pos = pos
         self.force_signed = force_signed
+        self.via_clone = False      # input stacks only: position given through zw_value_clone
 
     def with_pos(self, pos):
         return VConst(self.value, self.dom, pos)
@@ -56,12 +57,13 @@ class VConst:
 
 
 class VStr:
-    __slots__ = ("data", "pos")
+    __slots__ = ("data", "pos", "via_clone")
     t = "s"
 
     def __init__(self, data, pos=0):
         self.data = data
         self.pos = pos
+        self.via_clone = False
 
     def with_pos(self, pos):
         return VStr(self.data, pos)
